@@ -4,6 +4,10 @@ set -e
 V="$(cd "$(dirname "$0")/.." && pwd)"
 cd "$V"
 bin/build_gatery.sh
+# source-regenerated Coq files (S3) first, so that the full Coq build sees them
+mkdir -p coq/Gatery/gen
+python3 translate/C13_keywords.py /repo coq/Gatery/gen/Keywords.v || true
+python3 translate/C04_eventorder.py /repo coq/Gatery/gen/EventOrder.v || true
 python3 - <<'PY'
 import sys; sys.path.insert(0, "lib")
 import vcommon as V
